@@ -157,7 +157,7 @@ def tasks(tier, seed):
     from ..pyvc.driver import verify
     from ..contracts import curvesv
     # shape level, all curves / point lists / node lists: npts control points on the same knot vector, weights untouched, every refusal atomic
-    ts = [(verify, (c, m, q, v)) for c, m, q, v in curvesv.ALL if q == "Curve.fit_points"]
+    ts = curvesv.tasks_for(("Curve.fit_points",))
     for p, cells in shapes(tier):
         for variant in ((0, 1) if tier == "quick" else (0, 1, 2)):
             ts.append((task_fit, (p, cells, variant, False)))
